@@ -96,12 +96,17 @@ func CheckTree(c *core.Ctx, t wire.Node, extraWords int) {
 	}
 	var back ttlv.Value
 	var derr error
-	if p, v, st := core.Guard(func() { derr = ttlv.UnmarshalTTLV(append([]byte{}, in...), &back) }); p {
+	buf := append([]byte{}, in...)
+	if p, v, st := core.Guard(func() { derr = ttlv.UnmarshalTTLV(buf, &back) }); p {
 		c.Violation(core.PanicSig(v, st), fmt.Sprintf("UnmarshalTTLV panicked on a well-formed encoding: %v", v), map[string]any{"input": hx(in), "stack": st})
 		return
 	}
 	if derr != nil {
 		c.Violation("C03:decoder-rejects-wellformed:"+clsOf(t), "library rejects a well-formed encoding: "+derr.Error(), map[string]any{"tree": t.String(), "input": hx(in)})
+		return
+	}
+	if !bytes.Equal(buf, in) {
+		c.Violation("C03:decoder-modified-its-input:"+clsOf(t), "decoding a well-formed encoding rewrote the bytes it was given (a second look at them gives another tree)", map[string]any{"input": hx(in), "after": hx(buf)})
 		return
 	}
 	bt, err := gen.FromValue(back)
